@@ -761,10 +761,12 @@ def isOpener (w : String) : Bool :=
 
 def isCloser (w : String) : Bool := w == "}" || w == "fi" || w == "done" || w == "esac"
 
+/-- a bare `alias`/`unalias` command whose words need quote removal only (the harness executes exactly these) -/
 def isAliasCmd (ws : List (List Char)) : Bool :=
-  match ws.getLast? with
-  | some w => w == "alias".toList || w == "unalias".toList
-  | none => false
+  (match ws.getLast? with
+   | some w => w == "alias".toList || w == "unalias".toList
+   | none => false) &&
+  ws.all (fun w => !w.any (fun c => c == '$' || c == '`' || c == '~' || c == '*' || c == '?' || c == '['))
 
 /-- end of an item (`;`, newline, end of input) at depth 0 -/
 def endItem (st : PState) (tr : Track) : Track :=
